@@ -115,7 +115,7 @@ def feed(name: str, value, dtype: str) -> dict:
     """Disassemble an input into the flat tensors the exported model expects."""
     if is_nullable(dtype):
         value = np.ma.masked_array(value) if not isinstance(value, np.ma.MaskedArray) else value
-        mask = np.ascontiguousarray(np.broadcast_to(np.ma.getmaskarray(value), value.shape))
+        mask = np.array(np.broadcast_to(np.ma.getmaskarray(value), value.shape), dtype=bool).reshape(value.shape)
         data = np.asarray(value.data)
         if dtype == "nutf8":
             data = data.astype(object)
